@@ -53,6 +53,18 @@ def _fn_ip():
     return {"coq": text, "translated": done, "refused": failed, "missing_core": [n for n in need if n not in done]}
 
 
+@unit("fn_jun")
+def _fn_jun():
+    import os
+
+    sys.path.insert(0, os.path.dirname(os.path.abspath(__file__)))
+    import translate
+    import netconan.utils.juniper_secrets as pm
+
+    text, done, failed = translate.translate_module(pm.__file__, pm)
+    return {"coq": text, "translated": done, "refused": failed}
+
+
 @unit("cli_consts")
 def _cli_consts():
     from netconan import netconan as nn
